@@ -34,6 +34,10 @@ class RefCodecError(Exception):
 # ---------------------------------------------------------------------------
 # model
 
+# bytes of a region held by one row of its .p8 text form
+ROW_BYTES = {GFX: 64, MAP: 128, GFF: 128, MUSIC: 4, SFX: 68}
+
+
 def empty_regions():
     r = {k: bytes(REGION_SIZE[k]) for k in REGIONS}
     # documented empty defaults: music channels silent, sfx note duration 1
@@ -142,6 +146,17 @@ def encode_p8(cart, style=None):
         if name not in order:
             order.append(name)
     zero = {GFX: GFX, GFF: GFF, MAP: MAP}
+    if style.get('strip_trailing_empty'):
+        # rows at the end of a section that hold what an empty cart holds
+        # there are left out, as PICO-8 does
+        empty = empty_regions()
+        for name in (GFX, GFF, MAP, MUSIC, SFX):
+            rows = secs[name][1:]
+            rb = ROW_BYTES[name]
+            while rows and cart[name][(len(rows) - 1) * rb:len(rows) * rb] \
+                    == empty[name][(len(rows) - 1) * rb:len(rows) * rb]:
+                rows.pop()
+            secs[name] = secs[name][:1] + rows
     for name in order:
         if name not in secs:
             continue
@@ -521,6 +536,18 @@ def cart_from_spec(spec):
             continue
         if r == 'zero':
             regions[k] = bytes(REGION_SIZE[k])
+        elif isinstance(r, dict) and '$head' in r:
+            # the first `rows` rows of the section's text form hold seeded
+            # bytes, the rest is as in an empty cart (PICO-8 leaves such
+            # trailing rows out of the .p8 file)
+            n = max(0, min(r['rows'], REGION_SIZE[k] // ROW_BYTES[k])) * \
+                ROW_BYTES[k]
+            b = bytearray(core.rnd_bytes(r['$head'], n)) + bytearray(
+                empty_regions()[k][n:])
+            if k == MUSIC:
+                for i in range(3, n, 4):
+                    b[i] &= 0x7f
+            regions[k] = bytes(b)
         elif isinstance(r, dict) and '$fill' in r:
             # every byte the same value (0xff, 0x80, 0x7f, ...)
             b = bytearray([r['$fill'] & 0xff]) * REGION_SIZE[k]
